@@ -16,6 +16,7 @@ RECURSIVE SetToSeq(_)
 SetToSeq(S) == IF S = {} THEN <<>> ELSE LET x == CHOOSE y \in S : TRUE IN <<x>> \o SetToSeq(S \ {x})
 LettersDef == {"m", "x", "l", "h", "d", "X", "n", "D", "R", "t", "~", "u", "c", "k", "a", "e", "s", "g", "i", "r", "v", "o", "f", "M", "L", "T", "P", "I", "p", "b", "y", "z", "q"}
 DigitsDef == {"0", "1", "2", "3", "4", "5", "6", "7", "8", "9"}
+OtherAlnumDef == {"^"}   \* "^" stands for U+0663 ARABIC-INDIC DIGIT THREE
 
 \* ---- token constructors: [k, txt, val, prm, name]
 P(fill, al, mn, mx) == [fill |-> fill, align |-> al, min |-> mn, max |-> mx]
